@@ -4,7 +4,7 @@ CONSTANTS
   Mods <- Mods0
   AddrMode = "simple"
   MaxTx = 2
-  Fuel = 3
+  Fuel = 4
   Level = 2
   Genesis <- Genesis0
   CallMenu <- PrivCalls
